@@ -75,7 +75,8 @@ sink - both sides refuse, but the source after the chunk that crossed the limit,
 function is not consulted (`sim_add_symlink_acc`, `AlignedDev.sim_wr`, `Tie/RawCopyAcc.sim_raw_copy_one_acc`).
 Raw copies of SEVERAL chunks: `Tie/RawCopyAcc.raw_copy_any_chunking` - on a fault-free sink the translated method
 has the outcome, final state, sink bytes and position of `Call.rawCopy` of the whole stream for ANY chunking; the
-two devices differ in the I/O call counter, so it is a one-call statement, not a covered call of `grun_sim`;
+two devices differ in the I/O call counter, so it is not a covered call of `grun_sim` (equal devices, every fault
+index) but of the fault-free script tie `Tie/WriterComposeView.vrun_sim` (devices compared by bytes and position);
 `dropFields`: what dropping the fields of a `ZipWriter` does after `Drop::drop` returned (flate2 / bzip2
 encoders finish into the sink from their destructors) is the model's `dropInner` - external code;
 `fresh` is the struct literal of `ZipWriter::new` written by hand (`new` is not translated).
